@@ -165,4 +165,59 @@ example : nwayAfterDyn [.shape, .occ, .shape, .nway] = true ∧ nwayAfterDyn [.n
 example : checkFlatten ["K", "M"] [.flatten] (fun _ => false) (fun _ => false) ["K", "M", "N"] ["K", "M", "N", "KM"] = none := by
   decide
 
+/-! ### undeclared tensors, Einsums without an accelerator configuration -/
+
+/-- an Einsum that names a tensor (at any position) which the declaration does not list is rejected -/
+theorem undeclared_rejected (declared used : List String) (t : String) (ht : t ∈ used) (hn : t ∉ declared) :
+    undeclGuard declared used = true := by
+  simp only [undeclGuard, List.any_eq_true]
+  exact ⟨t, ht, by simpa using hn⟩
+
+theorem declared_accepted (declared used : List String) (h : ∀ t ∈ used, t ∈ declared) : undeclGuard declared used = false := by
+  simp only [undeclGuard, List.any_eq_false]
+  intro t ht
+  simpa using h t ht
+
+theorem configLoop_true (bs : List Bool) : configLoop true bs = true := by
+  induction bs with
+  | nil => rfl
+  | cons b bs ih => simpa [configLoop] using ih
+
+theorem configLoop_false_iff : ∀ bs : List Bool, configLoop false bs = false ↔ ∀ b ∈ bs, b = false
+  | [] => by simp [configLoop]
+  | b :: bs => by
+    cases b with
+    | true => simp [configLoop, configLoop_true]
+    | false => simpa [configLoop] using configLoop_false_iff bs
+
+/-- an Einsum (at any position of the bindings, whatever the other Einsums carry) none of whose entries carries a `config` is
+    rejected -/
+theorem missing_config_rejected : ∀ (es : List (List Bool)) (e : List Bool), e ∈ es → (∀ b ∈ e, b = false) → configGuard es = true
+  | [], _, h, _ => by simp at h
+  | e0 :: es, e, h, hf => by
+    simp only [configGuard]
+    by_cases h0 : configLoop false e0 = false
+    · simp [h0]
+    · have h0' : configLoop false e0 = true := by simpa using h0
+      simp only [h0', Bool.not_true, Bool.false_eq_true, if_false]
+      rcases List.mem_cons.1 h with rfl | h'
+      · exact absurd ((configLoop_false_iff e).2 hf) h0
+      · exact missing_config_rejected es e h' hf
+
+/-- bindings in which every Einsum carries a `config` entry pass -/
+theorem configured_accepted : ∀ es : List (List Bool), (∀ e ∈ es, ∃ b ∈ e, b = true) → configGuard es = false
+  | [], _ => rfl
+  | e0 :: es, h => by
+    simp only [configGuard]
+    have h0 : configLoop false e0 = true := by
+      obtain ⟨b, hb, rfl⟩ := h e0 (by simp)
+      cases hc : configLoop false e0 with
+      | true => rfl
+      | false => exact absurd ((configLoop_false_iff e0).1 hc true hb) (by simp)
+    simp only [h0, Bool.not_true, Bool.false_eq_true, if_false]
+    exact configured_accepted es (fun e he => h e (List.mem_cons_of_mem _ he))
+
+/-- non-vacuity: the second of three Einsums lacks a configuration -/
+example : configGuard [[true, false], [false, false], [false, true]] = true := by decide
+
 end C18
